@@ -24,7 +24,7 @@ SPEC = Spec(
         "gonum topo.Sort: its code is not modelled; its success condition is modelled by the executable peeling check `sortable`, proved to reject every graph with a closed walk (C09_cycle_rejected, C09_accepted_acyclic) and to reject only graphs with a closed walk (C09_accepts_valid_partial); the error class is part of the differential",
         "which cycle gonum's topo.DirectedCyclesIn reports is not modelled; the printed cycle is checked by the monitor cycleMsgOk (C09_cycle_message_sound) to be a closed walk of the model's graph starting and ending at the same connector",
         "node identity: the fnv-64a hash of service/internal/attribute is assumed injective on the keys of one configuration (a collision would show as a differing instance set)",
-        "instrumented test connectors forward every payload to their whole router (all next pipelines); real connectors may route selectively",
+        "instrumented test connectors either forward every payload to their whole router or select next pipelines by id through the router API (Conn.sel, modelled by flowEdges); other run-time behaviours of real connectors are not modelled",
     ],
     assumptions=[
         "pipeline ids are distinct (Go map keys); no pipeline lists a processor twice - this is what the modelled PipelineConfig.Validate guarantees (C09_validate_wf), and the harness only builds configurations that passed the real validation",
